@@ -18,7 +18,13 @@ CONFIG = {
             'without bf/reset only up to length 2); random: histories of up to 40 ops on random text / recordio inputs, '
             'random (k,n) incl. k >= n. Oracle after each bf / reset: delivered canonical records = (prefix of) the stream of '
             'a freshly constructed split for the same (k,n).',
-    'assumptions': ['as C03 / C04', 'the prefetching wrapper (ThreadedInputSplit) is covered by C10, not here'],
+    'assumptions': ['as C03 / C04 (size_t ranges: offsets < 2^64, total size < 2^62/2^63 where stated)',
+                    'blob-for-blob equality with a fresh object is stated for equal buffer size (C05_reset, C05_beforeFirst, any '
+                    'format, bare and behind SingleThreadedInputSplit); for the text format the canonical lines are additionally '
+                    'shown equal for ANY buffer size / consumption mode (C05_reset_text_as_fresh); for recordio that step is '
+                    'C04_buffer_independent',
+                    'the prefetching wrapper (ThreadedInputSplit) is covered by C10, not here',
+                    'the theorems need fix C05-1 in the source (Gen items rpEmptyClears / bfEmptyClears = true, by rfl)'],
     'trusted_base': ['modelled by hand, tied by correspondence only: control flow of InputSplitBase, the two splitters and '
                      'SingleThreadedInputSplit'],
     'partial': [],
